@@ -326,7 +326,7 @@ func genExtends(g *gen) {
 
 func genHealthcheck(g *gen) {
 	r := g.s.Rand("healthcheck")
-	tests := []string{"curl -f http://localhost", "exit 0", "pg_isready -U postgres || exit 1", "test -f '/tmp/ok file'", "true", `echo "a b"  c`, " leading and trailing "}
+	tests := []string{"curl -f http://localhost", "exit 0", "pg_isready -U postgres || exit 1", "test -f '/tmp/ok file'", "true", `echo "a b"  c`, " leading and trailing ", "NONE", "CMD", "CMD-SHELL true", "none"}
 	for i := 0; i < g.size(60, 600); i++ {
 		t := pick(r, tests)
 		hc := func(test any) m {
